@@ -34,6 +34,7 @@ type c07ConcScenario struct {
 }
 
 type c07ConcReplay struct {
+	Stmt     bool            `json:"statement_level_scheduling"`
 	Kind     string          `json:"kind"`
 	Scenario c07ConcScenario `json:"scenario"`
 	Choices  []int           `json:"choices"`
@@ -170,6 +171,9 @@ func c07ConcSetup(e *c07Env, sc c07ConcScenario, px *Proxy) (solo [2]c07ConcView
 func c07ConcReplayOne(c *Ctx, e *c07Env, rp c07ConcReplay) string {
 	vrt.Enabled = true
 	vrt.AllStatements = map[string]bool{"pkg/header": true, "pkg/middleware": true}
+	if !rp.Stmt {
+		vrt.AllStatements = nil
+	}
 	defer func() { vrt.Enabled = false; vrt.AllStatements = nil }()
 	for _, cfg := range c07ConcConfigs() {
 		if cfg.Name != rp.Scenario.Config {
@@ -237,51 +241,56 @@ func c07Concurrent(c *Ctx, e *c07Env) {
 				c.Note("concurrent scenario %+v: statement paths differ between identical executions (map iteration order?): explored with access-based scheduling points only", sc)
 			}
 		}
-		stats := explore.Run(explore.Config{MaxCost: bound, Deadline: c.Deadline, Shard: c.Shard, Shards: c.Shards, ShardDepth: 2, TolerateDivergence: true, MaxDivergences: 16}, func(x *explore.Exec, own bool) {
-			out, v, err := body(x)
-			if !own {
-				return
+		for _, pass := range concPasses(bound, len(vrt.AllStatements) > 0) {
+			if !pass.stmt {
+				vrt.AllStatements = nil
 			}
-			c.Inc("evaluations")
-			c.Inc("conc_executions")
-			c.Inc("traces_validated_against_impl")
-			c.Add("transitions", int64(out.Steps))
-			c.SetMax("conc_max_steps_per_execution", int64(out.Steps))
-			order := sched.DescribeOrder(out.Order)
-			c.Distinct("distinct_nontrivial", fmt.Sprintf("conc|%d|%s", si, order))
-			if out.Switches > 1 {
-				c.Inc("conc_executions_with_a_preemption")
-			}
-			for _, r := range out.Races {
-				if c.Distinct("conc_distinct_unsynchronised_conflicts", r.Key()) {
-					c.Note("unsynchronised conflicting accesses (counted, not the deciding oracle): %s", r.Key())
+			stats := explore.Run(explore.Config{MaxCost: pass.bound, Deadline: c.Deadline, Shard: c.Shard, Shards: c.Shards, ShardDepth: 2, TolerateDivergence: true, MaxDivergences: 16}, func(x *explore.Exec, own bool) {
+				out, v, err := body(x)
+				if !own {
+					return
 				}
+				c.Inc("evaluations")
+				c.Inc("conc_executions")
+				c.Inc("traces_validated_against_impl")
+				c.Add("transitions", int64(out.Steps))
+				c.SetMax("conc_max_steps_per_execution", int64(out.Steps))
+				order := sched.DescribeOrder(out.Order)
+				c.Distinct("distinct_nontrivial", fmt.Sprintf("conc|%d|%s", si, order))
+				if out.Switches > 1 {
+					c.Inc("conc_executions_with_a_preemption")
+				}
+				for _, r := range out.Races {
+					if c.Distinct("conc_distinct_unsynchronised_conflicts", r.Key()) {
+						c.Note("unsynchronised conflicting accesses (counted, not the deciding oracle): %s", r.Key())
+					}
+				}
+				rp := c07ConcReplay{Kind: "concurrent-requests", Stmt: len(vrt.AllStatements) > 0, Scenario: sc, Choices: x.Choices(), Order: order}
+				if err != "" {
+					rp.What = err
+					c.confirm("C07/concurrent/"+strings.Fields(err)[0], fmt.Sprintf("%+v: %s [thread order %s]", sc, err, order), len(rp.Choices), rp, func() (string, bool) {
+						_, _, e2 := body(explore.Replay(rp.Choices, nil))
+						return "C07/concurrent/" + strings.Fields(err)[0], e2 != ""
+					})
+					return
+				}
+				if d := diff(v); d != "" {
+					rp.What = d
+					c.confirm("C07/concurrent/headers-differ-from-serving-alone", fmt.Sprintf("%s: %s [thread order %s]", sc.Config, d, order), len(rp.Choices), rp, func() (string, bool) {
+						_, v2, e2 := body(explore.Replay(rp.Choices, nil))
+						return "C07/concurrent/headers-differ-from-serving-alone", e2 == "" && diff(v2) != ""
+					})
+				}
+			})
+			c.Add("states", int64(stats.Executions))
+			vrt.AllStatements = every
+			if stats.Divergences > 0 {
+				c.Unstable("concurrent scenario %+v: %d executions did not reproduce their replayed prefix", sc, stats.Divergences)
 			}
-			rp := c07ConcReplay{Kind: "concurrent-requests", Scenario: sc, Choices: x.Choices(), Order: order}
-			if err != "" {
-				rp.What = err
-				c.confirm("C07/concurrent/"+strings.Fields(err)[0], fmt.Sprintf("%+v: %s [thread order %s]", sc, err, order), len(rp.Choices), rp, func() (string, bool) {
-					_, _, e2 := body(explore.Replay(rp.Choices, nil))
-					return "C07/concurrent/" + strings.Fields(err)[0], e2 != ""
-				})
-				return
+			if !stats.Exhaustive {
+				c.Exhaustive = false
+				c.Note("concurrent part %+v: not exhaustive (level completed %d)", sc, stats.LevelCompleted)
 			}
-			if d := diff(v); d != "" {
-				rp.What = d
-				c.confirm("C07/concurrent/headers-differ-from-serving-alone", fmt.Sprintf("%s: %s [thread order %s]", sc.Config, d, order), len(rp.Choices), rp, func() (string, bool) {
-					_, v2, e2 := body(explore.Replay(rp.Choices, nil))
-					return "C07/concurrent/headers-differ-from-serving-alone", e2 == "" && diff(v2) != ""
-				})
-			}
-		})
-		c.Add("states", int64(stats.Executions))
-		vrt.AllStatements = every
-		if stats.Divergences > 0 {
-			c.Unstable("concurrent scenario %+v: %d executions did not reproduce their replayed prefix", sc, stats.Divergences)
-		}
-		if !stats.Exhaustive {
-			c.Exhaustive = false
-			c.Note("concurrent part %+v: not exhaustive (level completed %d)", sc, stats.LevelCompleted)
 		}
 	}
 }
